@@ -135,12 +135,27 @@ CHECKS = {
 PENDING = 'check under construction in this session (see DESIGN.md section 2); not claimed until its quick run is silent on the unchanged tree'
 
 
+# input families shared by several checks (added after the seeded campaign showed where single checks' alphabets were thin)
+_TEXT = ('Shared text families: rare-line alphabet (words <= 2 with a rare line after every witness prefix), single-edit neighbourhood of the acceptance corpus and the '
+         'model base documents (one character from a 14 + 13 character menu inserted / deleted at every position, lines duplicated / deleted / swapped), '
+         'one construct repeated 1..12 times, documents pushed down by 8..1000 lines.')
+_MODEL = 'Shared model families: one construct repeated 1..12 times; every construct in every dialect x k-th keyword of every role; parser routes fresh / long-lived after an adversarial history / stop mode with explicit matcher / text given directly.'
+_COMP = ('Shared compiler families: single-edit neighbourhood and repetition documents through parser + compiler; compile routes fresh / long-lived compiler / JSON round trip with sorted keys / '
+         'second compilation of the same document object.')
+SHARED = {'C01': _TEXT, 'C02': _TEXT, 'C03': _TEXT + ' ' + _MODEL, 'C04': _TEXT + ' ' + _MODEL, 'C14': _TEXT, 'C18': _TEXT,
+          'C06': _COMP, 'C07': _COMP, 'C08': _COMP, 'C09': _COMP, 'C10': _COMP, 'C11': _COMP + ' ' + _MODEL,
+          'C16': 'Base documents also include the single-edit neighbourhood of short corpus / base documents, repetition documents, long lines, long paths and chunk-boundary files.',
+          'C17': 'Also: single-edit neighbourhood documents as one-source streams; two enum() generators of one stream drawn alternately (bounded switches); strict one-JSON-envelope-per-line output of the script in all 8 option sets.'}
+
+
 def main():
     checks = []
     for pid in ALL:
         if pid not in CHECKS:
             continue
-        c = CHECKS[pid]
+        c = dict(CHECKS[pid])
+        if pid in SHARED:
+            c['text'] = c['text'] + ' ' + SHARED[pid]
         checks.append({
             'property_id': pid,
             'quick_cmd': './check %s --tier quick' % pid,
